@@ -5,4 +5,4 @@ From Coq Require Import ZArith QArith List Extraction ExtrOcamlBasic.
 From Inf Require Import base.ExtrBase model.PathM.
 Extraction Language OCaml.
 Extraction "extract/c15_model.ml" extr_anchor paste reverse copy iadd append ordermin ordermax
-  start_point end_point check_interfaces.
+  start_point end_point check_interfaces success.
